@@ -209,6 +209,34 @@ func (g *Grammar) ExprString(e *syntax.Expr) string {
 	}
 }
 
+// BisonRuleString renders the right-hand side of a rule in Bison syntax. Unlike ExprString, it works
+// off the rule the parser tables were built from, so nonterminals extracted from mid-rule actions
+// show up in the rules that use them (and have printable rules of their own).
+func (g *Grammar) BisonRuleString(r *Rule) string {
+	var sb strings.Builder
+	for _, sym := range r.RHS {
+		if sb.Len() > 0 {
+			sb.WriteByte(' ')
+		}
+		switch {
+		case sym.IsStateMarker():
+			sb.WriteString("/*." + g.Parser.Tables.Markers[sym.AsMarker()].Name + "*/")
+		case int(sym) < g.NumTokens:
+			sb.WriteString(g.Syms[sym].ID)
+		default:
+			sb.WriteString(g.Syms[sym].Name)
+		}
+	}
+	if sb.Len() == 0 {
+		sb.WriteString("%empty")
+	}
+	if r.Precedence > 0 {
+		sb.WriteString(" %prec ")
+		sb.WriteString(g.Syms[r.Precedence].ID)
+	}
+	return sb.String()
+}
+
 // RuleString returns a user-friendly rendering of a given rule.
 func (g *Grammar) RuleString(r Rule) string {
 	var sb strings.Builder
